@@ -517,6 +517,13 @@ def S_det(pairs, nout=2):
                     cut.local(*step_conj(ra, rb, "db", f"ladders {a}/{b} row {i} double"))
         NZ = AND(*sorted(set(e._ed_nz)))
         goal = AND(*[eq(O[j], O[nout + j]) for j in range(nout)])
+        if NZ != "true" and not NO_CUT[0]:
+            # vacuity of the hypothesis: the honest run (accepted by the real MockProver) has no vanishing denominator
+            hon = e.s.honest_assign()
+            exact = e.exact_atoms({n: hon.get(c, 0) for c, n in e.vars.items()})
+            r = solvers.solve(e.text([f"(assert (= {n} {v}))" for n, v in exact.items()] + [f"(assert {NZ})"]), timeout=30)
+            if r.status != "sat":
+                return "false"       # decide reports the failed vacuity twin as INCONCLUSIVE
         return IMP(NZ, goal)
     return spec
 
@@ -592,7 +599,7 @@ def _solve_unit(Pm, terms, known, u):
     for k, cl in terms:
         n = cl.count(u)
         if n > 1:
-            return None
+            return "free"          # non-linear in u: not determined by unit propagation (checked once u is known)
         v = k
         for x in cl:
             if x != u:
@@ -606,62 +613,28 @@ def _solve_unit(Pm, terms, known, u):
     return (-r * pow(c, -1, Pm)) % Pm
 
 
-def forge_assignment(system, extra, log=lambda m: None, max_frontiers=400, deviate_at=0):
-    """class -> value, deviating from the honest run at the `deviate_at`-th frontier (a row with several unknown
-    cells) and honest wherever the honest values remain consistent, satisfying every gate row exactly; None when
-    that does not work out; "exhausted" when there are fewer frontiers"""
-    Pm = system.P
-    honest = system.honest_assign()
-    rows = [(g, _row_cls(system, g["poly"])) for g in system.d["gates"]]
-    known = {system.cls(c): honest[system.cls(c)] for c in system.ins if system.cls(c) not in system.const}
-    gate_classes = set(x for _, t in rows for _, cl in t for x in cl)
-    deviated = False
-    nfront = -1
-    for _ in range(max_frontiers):
-        progress = True
-        while progress:
-            progress = False
-            for g, terms in rows:
-                unk = {x for _, cl in terms for x in cl if x not in known}
-                if len(unk) != 1:
-                    continue
-                u = next(iter(unk))
-                v = _solve_unit(Pm, terms, known, u)
-                if v is None:
-                    return None
-                if v == "free":
-                    continue
-                known[u] = v
-                progress = True
-        todo = [(len({x for _, cl in t for x in cl if x not in known}), g["row"], i) for i, (g, t) in enumerate(rows)]
-        todo = [t for t in todo if t[0] > 0]
-        if not todo:
-            break
-        _, _, i0 = min(todo)
-        U = {x for _, cl in rows[i0][1] for x in cl if x not in known}
-        G = [g for g, t in rows if {x for _, cl in t for x in cl if x not in known} <= U and any(x in U for _, cl in t for x in cl)]
-        hon_ok = all(sum(k * _prod(Pm, [known.get(x, honest.get(x, 0)) for x in cl]) for k, cl in _row_cls(system, g["poly"])) % Pm == 0 for g in G)
-        vals = None
-        nfront += 1
-        want_dev = (not deviated) and nfront == deviate_at
-        if want_dev or not hon_ok:
-            vals = _frontier_model(system, extra, G, known, U, honest, deviate=want_dev)
-            if want_dev and vals is None:
-                return None
-            if vals is not None and any(vals[u] != honest.get(u) for u in U):
-                if not deviated:
-                    log(f"forged cells at row {rows[i0][0]['row']} ({rows[i0][0]['gate']}): {len(U)} cells chosen by the solver")
-                deviated = True
-        if vals is None:
-            if not hon_ok:
-                return None
-            vals = {u: honest.get(u, 0) for u in U}
-        known.update(vals)
-    if not deviated:
-        return "exhausted" if nfront < deviate_at else None
-    for c in system.used_classes():
-        known.setdefault(c, honest.get(c, 0))
-    return known
+def _propagate(Pm, rows, known):
+    """unit propagation (a row that is linear in its only unknown cell determines it); False on a contradiction"""
+    progress = True
+    while progress:
+        progress = False
+        for g, terms in rows:
+            unk = {x for _, cl in terms for x in cl if x not in known}
+            if len(unk) > 1:
+                continue
+            if not unk:
+                if sum(k * _prod(Pm, [known[x] for x in cl]) for k, cl in terms) % Pm:
+                    return False
+                continue
+            u = next(iter(unk))
+            v = _solve_unit(Pm, terms, known, u)
+            if v is None:
+                return False
+            if v == "free":
+                continue
+            known[u] = v
+            progress = True
+    return True
 
 
 def _prod(Pm, vs):
@@ -671,7 +644,95 @@ def _prod(Pm, vs):
     return r
 
 
-def _frontier_model(system, extra, G, known, U, honest, deviate, rounds=6, timeout=10):
+def forge_assignment(system, extra, log=lambda m: None, max_frontiers=400, deviate_at=0, pick=0, pin_inputs=True):
+    """class -> value, deviating from the honest run at the `deviate_at`-th frontier and honest wherever the honest
+    values remain consistent, satisfying every gate row exactly; None when that does not work out; "exhausted"
+    when there are fewer frontiers. A frontier is the block of gates on the first circuit row that still has
+    unknown cells after unit propagation: there the SOLVER proposes a value for one free cell (query: the block's
+    sub-system, every known cell pinned, `cell != honest value`), exact propagation completes the block."""
+    Pm = system.P
+    honest = system.honest_assign()
+    rows = [(g, _row_cls(system, g["poly"])) for g in system.d["gates"]]
+    known = {system.cls(c): honest[system.cls(c)] for c in system.ins if system.cls(c) not in system.const} if pin_inputs else {}
+    deviated = False
+    nfront = -1
+    typed = {system.cls(c) for lk in system.d["lookups"] for inp in lk["inputs"] for p_ in inp["exprs"] for _, cs in p_ for c in cs}
+    for _ in range(max_frontiers):
+        if _propagate(Pm, rows, known) is False:
+            return None
+        todo = [g["row"] for g, t in rows if any(x not in known for _, cl in t for x in cl)]
+        if not todo:
+            break
+        r0 = min(todo)
+        U = {x for g, t in rows if g["row"] == r0 for _, cl in t for x in cl if x not in known}
+        G = [(g, t) for g, t in rows if {x for _, cl in t for x in cl if x not in known} <= U and any(x in U for _, cl in t for x in cl)]
+        nfront += 1
+        want_dev = (not deviated) and nfront == deviate_at
+
+        def trial(pairs):
+            k2 = dict(known)
+            k2.update(pairs)
+            if _propagate(Pm, G, k2) is False:
+                return None
+            return k2
+
+        vals = None
+        # cells that occur in lookups are typed (bits, bytes, limbs: range-checked and usually determined by a
+        # decomposition elsewhere): they take their honest values first and are never the deviating cell
+        base = dict(known)
+        for u2 in sorted(U & typed):
+            k3 = dict(base)
+            k3[u2] = honest.get(u2, 0)
+            if _propagate(Pm, G, k3) is not False:
+                base = k3
+        cands = sorted(x for x in U if x not in base)
+
+        def fill(k2):
+            """remaining degrees of freedom of the block take their honest values (skipping a cell whose honest
+            value contradicts what is already fixed)"""
+            for u2 in cands:
+                if all(x in k2 for x in U):
+                    break
+                if u2 in k2:
+                    continue
+                k3 = dict(k2)
+                k3[u2] = honest.get(u2, 0)
+                if _propagate(Pm, G, k3) is not False:
+                    k2 = k3
+            return k2 if all(x in k2 for x in U) and _propagate(Pm, G, k2) is not False else None
+        if want_dev:
+            sugg = _suggest(system, extra, [g for g, _ in G], base, cands, honest)
+            nok = 0
+            for u, v in sugg:
+                k2 = dict(base)
+                k2[u] = v
+                k2 = fill(k2) if _propagate(Pm, G, k2) is not False else None
+                if k2 is not None:
+                    nok += 1
+                    if nok <= pick:
+                        continue
+                    vals = {x: k2[x] for x in U}
+                    log(f"forged cells at row {r0}: the solver proposed a value for 1 of {len(U)} undetermined cells, exact propagation completed the block")
+                    deviated = True
+                    break
+            if vals is None:
+                return "no-more-picks"
+        else:
+            k2 = fill(dict(base))
+            if k2 is None:
+                return None
+            vals = {x: k2[x] for x in U}
+        known.update(vals)
+    if not deviated:
+        return "exhausted" if nfront < deviate_at else None
+    for c in system.used_classes():
+        known.setdefault(c, honest.get(c, 0))
+    return known
+
+
+def _suggest(system, extra, G, known, cands, honest, timeout=10, limit=6):
+    """[(cell class, value != honest)] proposed by the solver from the block's sub-system with the known cells pinned
+    (the abstraction may propose values that exact propagation then refutes: they are only candidates)"""
     d = dict(system.d)
     d["gates"] = list(G)
     d["lookups"] = []
@@ -679,37 +740,21 @@ def _frontier_model(system, extra, G, known, U, honest, deviate, rounds=6, timeo
     es = csmt.Enc(sub)
     es.extra = extra
     es.encode(False)
-    names = {c: n for c, n in es.vars.items()}
-    pv = {names[c]: v for c, v in known.items() if c in names}
-    goal = []
-    if deviate:
-        goal = ["(assert (or false " + " ".join(f"(not (= {names[u]} {honest.get(u, 0)}))" for u in U if u in names) + "))"]
-    for _ in range(rounds):
-        pins = dict(pv)
-        for it in es.order:       # products / linear definitions of pinned atoms are constants
-            if it[0] == "mul" and all(isinstance(x, int) or x in pins for x in (it[2], it[3])):
-                va, vb = (x if isinstance(x, int) else pins[x] for x in (it[2], it[3]))
-                pins[it[1]] = va * vb % system.P
-        atoms = sorted(set(es.vars.values())) + [it[1] for it in es.order]
-        r = solvers.solve(es.text([f"(assert (= {n} {v}))" for n, v in pins.items()] + goal), timeout=timeout, get_values=atoms)
-        if r.status != "sat":
-            return None
-        assign = {n: r.model.get(n, 0) % system.P for n in es.vars.values()}
-        exact = es.exact_atoms(assign)
-        cls_assign = {c: assign[n] for c, n in es.vars.items()}
-        if not sub.check_exact(cls_assign):
-            return {u: cls_assign[u] for u in U if u in cls_assign}
-        wrong = [it for it in es.order if it[0] == "mul" and r.model.get(it[1]) is not None and r.model[it[1]] != exact[it[1]]]
-        if not wrong:
-            return None
-        for _, t, a, b in wrong[:40]:
-            va, vb = (exact[a] if not isinstance(a, int) else a), (exact[b] if not isinstance(b, int) else b)
-            q1 = es.fresh("q", 0, system.P)
-            es.lines.append(f"(assert (=> (= {a} {va}) (= {t} (- (* {va} {b}) (* {system.P} {q1})))))")
-            if a != b:
-                q2 = es.fresh("q", 0, system.P)
-                es.lines.append(f"(assert (=> (= {b} {vb}) (= {t} (- (* {vb} {a}) (* {system.P} {q2})))))")
-    return None
+    pins = {es.vars[c]: v for c, v in known.items() if c in es.vars}
+    for it in es.order:       # products of pinned atoms are constants
+        if it[0] == "mul" and all(isinstance(x, int) or x in pins for x in (it[2], it[3])):
+            va, vb = (x if isinstance(x, int) else pins[x] for x in (it[2], it[3]))
+            pins[it[1]] = va * vb % system.P
+    base = [f"(assert (= {n} {v}))" for n, v in pins.items()]
+    out = []
+    for u in cands:
+        if u not in es.vars or len(out) >= limit:
+            continue
+        n = es.vars[u]
+        r = solvers.solve(es.text(base + [f"(assert (not (= {n} {honest.get(u, 0)})))"]), timeout=timeout, get_values=[n])
+        if r.status == "sat" and n in r.model and r.model[n] % system.P != honest.get(u, 0):
+            out.append((u, r.model[n] % system.P))
+    return out
 
 
 def forge(run, ob, family, ent, timeout=30):
@@ -719,16 +764,20 @@ def forge(run, ob, family, ent, timeout=30):
     system = cengine.extract(family, ent["op"], ent["params"], ent["ins"], ent["k"])
     if not system.d["honest_verify"]:
         return False
-    for k in range(24):
-        if time.time() - t0 > 4 * timeout:
-            return False
-        cls_assign = forge_assignment(system, system.d.get("extra", {}), log=lambda m: run.log(f"  {ob.id}: {m}"), deviate_at=k)
-        if cls_assign == "exhausted":
-            return False
-        if cls_assign is None or system.check_exact(cls_assign):
-            continue
-        if _forge_finish(run, ob, family, ent, system, cls_assign, timeout, t0):
-            return True
+    for pin_inputs in (True, False):
+        k, pick = 0, 0
+        while k < 24 and time.time() - t0 < 4 * timeout:
+            cls_assign = forge_assignment(system, system.d.get("extra", {}), log=lambda m: run.log(f"  {ob.id}: {m}"), deviate_at=k, pick=pick, pin_inputs=pin_inputs)
+            if cls_assign == "exhausted":
+                break
+            if cls_assign == "no-more-picks":
+                k, pick = k + 1, 0
+                continue
+            pick += 1
+            if cls_assign is None or system.check_exact(cls_assign):
+                continue
+            if _forge_finish(run, ob, family, ent, system, cls_assign, timeout, t0):
+                return True
     return False
 
 
